@@ -351,7 +351,26 @@ def ob_extremal(d, r, form):
         if isinstance(res, (bool, np.bool_)) and isinstance(exp, (bool, np.bool_)):
             return bool(res) == bool(exp)
         return SymBool(res) == SymBool(exp)
-    return Obligation("is_extremal.linear_independence_of_products", cfg, build, call, oracle, post=post, neg_control=False, tv=False)
+    def witness():
+        # structured families on which the linear (in)dependence of {A_i^dagger A_j} is known by construction:
+        # a proper mixture of complex unitaries is NOT extremal ({I, U0^dagger U1, U1^dagger U0, I} is dependent);
+        # amplitude damping followed by a complex unitary IS extremal
+        if r != 2:
+            return []
+        rng = np.random.default_rng(21)
+        out = []
+        for _ in range(2):
+            Us = [np.linalg.qr(rng.normal(size=(d, d)) + 1j * rng.normal(size=(d, d)))[0] for _ in range(2)]
+            A = [np.sqrt(0.5) * u for u in Us]
+            out.append({"A": A, "B": A})
+        if d == 2:
+            g = 0.3
+            W = np.array([[1 + 1j, 1 - 1j], [1 - 1j, 1 + 1j]]) / 2
+            A = [W @ np.array([[1, 0], [0, np.sqrt(1 - g)]]), W @ np.array([[0, np.sqrt(g)], [0, 0]])]
+            out.append({"A": A, "B": A})
+        return out
+    return Obligation("is_extremal.linear_independence_of_products", cfg, build, call, oracle, post=post, neg_control=False, tv=False,
+                      witness=witness)
 
 
 def ob_unitary(d, n_ops, form, exact):
@@ -639,10 +658,12 @@ def obligations(tier):
     from fractions import Fraction as F
     for probs in [[F(1, 4)] * 4, [F(1, 2), F(1, 4), F(1, 8), F(1, 8)], [F(1), F(0), F(0), F(0)], [F(0), F(1, 16), F(9, 16), F(3, 8)]]:
         obs.append(ob_pauli(1, probs))
+    # two qubits with weights that are NOT symmetric under exchanging the tensor factors (fixes the factor order)
+    obs.append(ob_pauli(2, [F(1, 4), F(1, 8), F(1, 8)] + [F(1, 16)] * 4 + [F(1, 32)] * 8 + [F(0)]))
     if T:
         obs.append(ob_pauli(2, [F(1, 16)] * 16))
         # dyadic weights only: the Choi matrix is accumulated in float64 (scipy sparse), exact for dyadics
-        obs.append(ob_pauli(2, [F(1, 4), F(1, 8), F(1, 8)] + [F(1, 16)] * 4 + [F(1, 32)] * 8 + [F(0)]))
+        obs.append(ob_pauli(2, [F(0), F(1, 2), F(0), F(1, 4)] + [F(1, 64)] * 8 + [F(1, 32)] * 4))
     obs.append(ob_pauli_reject([F(1, 2), F(1, 2), F(1, 2), F(-1, 2)], True))
     obs.append(ob_pauli_reject([F(1, 2), F(1, 4), F(1, 8), F(1, 16)], True))
     obs.append(ob_pauli_reject([F(1, 2), F(1, 2)], True))
